@@ -89,8 +89,8 @@ theorem mem_flatMap_msgs {ms : List (String × MsgOut)} {k : MsgD} (hk : k ∈ m
     ∃ p ∈ ms, k ∈ p.2.msgs := by
   simpa [List.mem_flatMap] using hk
 
-theorem buildElem_ok (nm : Naming) (f : FileA) (syn : Syn) (rec : BodyRec) (hrec : RecOk rec) (fq : String)
-    (depth : Nat) (acc : BodyAcc) (hacc : AccOk acc) (e : Elem) : AccOk (buildElem nm f syn rec fq depth acc e) := by
+theorem buildElem_ok (nm : Naming) (f : FileA) (syn : Syn) (rec : BodyRec) (hrec : RecOk rec) (mt : Nat) (fq : String)
+    (depth : Nat) (acc : BodyAcc) (hacc : AccOk acc) (e : Elem) : AccOk (buildElem nm f syn rec mt fq depth acc e) := by
   obtain ⟨hm, hk⟩ := hacc
   unfold buildElem
   cases e with
@@ -111,14 +111,14 @@ theorem buildElem_ok (nm : Naming) (f : FileA) (syn : Syn) (rec : BodyRec) (hrec
   | extRange s e => exact ⟨oneofOk_same hm rfl rfl, hk⟩
   | field a =>
     simp only
-    refine ⟨oneofOk_append_none hm [(asFieldD nm syn fieldMax a).1] ?_ rfl (Nat.le_refl _), hk⟩
+    refine ⟨oneofOk_append_none hm [(asFieldD nm syn mt a).1] ?_ rfl (Nat.le_refl _), hk⟩
     intro fd hfd
     rw [List.mem_singleton.mp hfd]
-    exact asFieldD_oneof nm syn fieldMax a
+    exact asFieldD_oneof nm syn mt a
   | map k v n num =>
     simp only
     constructor
-    · refine oneofOk_append_none hm [(mapDescriptors nm syn fq fieldMax k v n num).1] ?_ rfl (Nat.le_refl _)
+    · refine oneofOk_append_none hm [(mapDescriptors nm syn fq mt k v n num).1] ?_ rfl (Nat.le_refl _)
       intro fd hfd
       rw [List.mem_singleton.mp hfd]
       simp [mapDescriptors, newFieldD_oneof]
@@ -134,9 +134,9 @@ theorem buildElem_ok (nm : Naming) (f : FileA) (syn : Syn) (rec : BodyRec) (hrec
           simp [newFieldD_oneof] at hi
   | group g =>
     simp only
-    have hg := buildGroup_ok nm f rec hrec fq fieldMax (depth + 1) g
+    have hg := buildGroup_ok nm f rec hrec fq mt (depth + 1) g
     constructor
-    · refine oneofOk_append_none hm [(buildGroup nm f rec fq fieldMax (depth + 1) g).1] ?_ rfl (Nat.le_refl _)
+    · refine oneofOk_append_none hm [(buildGroup nm f rec fq mt (depth + 1) g).1] ?_ rfl (Nat.le_refl _)
       intro fd hfd
       rw [List.mem_singleton.mp hfd]
       exact hg.1
@@ -146,7 +146,7 @@ theorem buildElem_ok (nm : Naming) (f : FileA) (syn : Syn) (rec : BodyRec) (hrec
       · exact hg.2 k h
   | oneof n members =>
     simp only
-    have hb := buildMembers_ok nm f syn rec hrec fq fieldMax (depth + 1) members
+    have hb := buildMembers_ok nm f syn rec hrec fq mt (depth + 1) members
     constructor
     · intro fd hfd i hi
       simp only [List.length_append, List.length_cons, List.length_nil] at *
@@ -174,13 +174,14 @@ theorem buildElem_ok (nm : Naming) (f : FileA) (syn : Syn) (rec : BodyRec) (hrec
   | svc i => exact ⟨hm, hk⟩
   | value n num => exact ⟨hm, hk⟩
   | allowAlias b => exact ⟨hm, hk⟩
+  | msgSet b => exact ⟨hm, hk⟩
   | rpc n i o cs ss => exact ⟨hm, hk⟩
 
-theorem foldl_buildElem_ok (nm : Naming) (f : FileA) (syn : Syn) (rec : BodyRec) (hrec : RecOk rec) (fq : String)
+theorem foldl_buildElem_ok (nm : Naming) (f : FileA) (syn : Syn) (rec : BodyRec) (hrec : RecOk rec) (mt : Nat) (fq : String)
     (depth : Nat) : ∀ (es : List Elem) (acc : BodyAcc), AccOk acc →
-      AccOk (es.foldl (buildElem nm f syn rec fq depth) acc)
+      AccOk (es.foldl (buildElem nm f syn rec mt fq depth) acc)
   | [], acc, h => h
-  | e :: rest, acc, h => foldl_buildElem_ok nm f syn rec hrec fq depth rest _ (buildElem_ok nm f syn rec hrec fq depth acc h e)
+  | e :: rest, acc, h => foldl_buildElem_ok nm f syn rec hrec mt fq depth rest _ (buildElem_ok nm f syn rec hrec mt fq depth acc h e)
 
 theorem assignSynthetic_ok (bound : Nat) : ∀ (fs : List FieldD) (base : Nat) (names : List String),
     (∀ f ∈ fs, ∀ i, f.oneofIndex = some i → i < bound) → base + names.length ≤ bound →
@@ -227,18 +228,23 @@ theorem buildBody_ok (nm : Naming) (f : FileA) (syn : Syn) : ∀ (fuel : Nat), R
     intro scope name elems depth k hk
     unfold buildBody at hk
     simp only at hk
+    have hbare : OneofOk ({ fullName := joinName scope name, name := name } : MsgD) := by
+      intro fd hfd; simp at hfd
     split at hk
-    · rw [List.mem_singleton.mp hk]
-      intro fd hfd
-      simp at hfd
-    · have hacc := foldl_buildElem_ok nm f syn (buildBody nm f syn fuel) (buildBody_ok nm f syn fuel)
-        (joinName scope name) depth elems { m := { fullName := joinName scope name, name := name } }
-        ⟨by intro fd hfd; simp at hfd, by intro k hk; simp at hk⟩
-      rcases List.mem_cons.mp hk with rfl | hk'
-      · split
-        · exact processProto3Optional_ok nm _ hacc.1
-        · exact hacc.1
-      · exact hacc.2 k hk'
+    · rw [List.mem_singleton.mp hk]; exact hbare
+    · split at hk
+      · rw [List.mem_singleton.mp hk]; exact hbare
+      · have hacc := foldl_buildElem_ok nm f syn (buildBody nm f syn fuel) (buildBody_ok nm f syn fuel)
+          (if (msgSetOptions elems == [true]) = true then messageSetMax else fieldMax)
+          (joinName scope name) depth elems
+          { m := { fullName := joinName scope name, name := name, messageSet := (msgSetOptions elems).head? },
+            errs := if (msgSetOptions elems == [true] && syn == Syn.proto3) = true then ["msgset-proto3"] else [] }
+          ⟨by intro fd hfd; simp at hfd, by intro k hk; simp at hk⟩
+        rcases List.mem_cons.mp hk with rfl | hk'
+        · split
+          · exact processProto3Optional_ok nm _ hacc.1
+          · exact hacc.1
+        · exact hacc.2 k hk'
 
 theorem buildTop_ok (nm : Naming) (f : FileA) : ∀ (es : List Elem) (acc : FileD × List Rule),
     (∀ m ∈ acc.1.msgs, OneofOk m) → ∀ m ∈ (buildTop nm f es acc).1.msgs, OneofOk m
@@ -283,6 +289,7 @@ theorem buildTop_ok (nm : Naming) (f : FileA) : ∀ (es : List Elem) (acc : File
     | reservedName n i => exact h
     | value n num => exact h
     | allowAlias b => exact h
+    | msgSet b => exact h
     | rpc n i o cs ss => exact h
 
 /-- every `oneof_index` in every message of a constructed file is valid -/
